@@ -19,6 +19,9 @@ theorem tasksTree_under (dir : Path) : ∀ (t : Tree), ∀ x ∈ tasksTree dir t
   | .nontensor d b, x, h => by
     simp only [tasksTree, List.mem_singleton] at h
     subst h; exact ⟨["meta.json"], by simp, rfl⟩
+  | .ntstack d sd, x, h => by
+    simp only [tasksTree, List.mem_singleton] at h
+    subst h; exact ⟨["meta.json"], by simp, rfl⟩
   | .node b d kids, x, h => by
     simp only [tasksTree, List.mem_append, List.mem_singleton] at h
     rcases h with h | h
@@ -78,6 +81,13 @@ theorem tasksKids_under (dir : Path) : ∀ (kids : List (String × Tree)), ∀ x
       exact ⟨k, by simp [entryName], r, by rw [hr]; simp⟩
     · obtain ⟨n, hn, r, hr⟩ := tasksKids_under dir rest x h
       exact ⟨n, by simp only [List.map_cons, List.mem_cons]; right; exact hn, r, hr⟩
+  | (k, .ntstack d sd) :: rest, x, h => by
+    simp only [tasksKids, List.mem_append] at h
+    rcases h with h | h
+    · obtain ⟨r, _, hr⟩ := tasksTree_under (dir ++ [k]) (.ntstack d sd) x h
+      exact ⟨k, by simp [entryName], r, by rw [hr]; simp⟩
+    · obtain ⟨n, hn, r, hr⟩ := tasksKids_under dir rest x h
+      exact ⟨n, by simp only [List.map_cons, List.mem_cons]; right; exact hn, r, hr⟩
 end
 
 theorem under_ne (dir : Path) (n1 n2 : String) (r1 r2 : List String) (h : n1 ≠ n2) :
@@ -110,6 +120,7 @@ mutual
 theorem tasksTree_nodup (dir : Path) : ∀ (t : Tree), PathSafe t → ((tasksTree dir t).map (·.1)).Nodup
   | .leaf .., _ => by simp [tasksTree]
   | .nontensor .., _ => by simp [tasksTree]
+  | .ntstack .., _ => by simp [tasksTree]
   | .node b d kids, h => by
     simp only [PathSafe] at h
     obtain ⟨hnd, _, hk⟩ := h
@@ -183,6 +194,9 @@ theorem tasksKids_nodup (dir : Path) : ∀ (kids : List (String × Tree)), PathS
       | tclass c f ms =>
         have := tasksTree_nodup (dir ++ [k]) (.tclass c f ms) hs.1
         simpa [tasksKids] using this
+      | ntstack d sd =>
+        have := tasksTree_nodup (dir ++ [k]) (.ntstack d sd) hs.1
+        simpa [tasksKids] using this
 end
 
 
@@ -198,12 +212,13 @@ mutual
 def WF : Tree → Prop
   | .leaf _ s b => numel s = 0 → b = []
   | .nontensor .. => True
+  | .ntstack .. => True
   | .node _ _ kids => WFKids kids
   | .lazy _ ms =>
     (∀ j (h : j < ms.length), (ms[j]'h).1 = toString j) ∧ (∀ p ∈ ms, isColl p.2 = true) ∧ WFKids ms
   | .tclass cls _ inner =>
     -- the class is none of the built-in container types; its tensordict sits under `_tensordict`
-    (cls ≠ "TensorDict" ∧ cls ≠ "NonTensorData" ∧ cls ≠ "LazyStackedTensorDict")
+    (cls ≠ "TensorDict" ∧ cls ≠ "NonTensorData" ∧ cls ≠ "LazyStackedTensorDict" ∧ cls ≠ "NonTensorStack")
       ∧ inner.map (·.1) = ["_tensordict"] ∧ (∀ p ∈ inner, isColl p.2 = true) ∧ WFKids inner
 def WFKids : List (String × Tree) → Prop
   | [] => True
@@ -279,6 +294,7 @@ theorem descendKids (fs : FS) (dir : Path) (kids : List (String × Tree))
     | node _ _ _ => simp [tasksKids]
     | lazy _ _ => simp [tasksKids]
     | tclass _ _ _ => simp [tasksKids]
+    | ntstack _ _ => simp [tasksKids]
   intro x hx
   apply he
   exact (mem_tasksKids dir kids x).2 ⟨(k, t), hk, (hsub x).1 hx⟩
@@ -355,6 +371,7 @@ theorem load_ok : ∀ (fuel : Nat) (t : Tree) (dir : Path) (fs : FS), isColl t =
     | node _ _ _ => simp [depth] at hd
     | lazy _ _ => simp [depth] at hd
     | tclass _ _ _ => simp [depth] at hd
+    | ntstack _ _ => simp [depth] at hd
   | succ f ih =>
     intro t dir fs hc hs hw hd he
     cases t with
@@ -363,6 +380,10 @@ theorem load_ok : ∀ (fuel : Nat) (t : Tree) (dir : Path) (fs : FS), isColl t =
       have := he (dir ++ ["meta.json"], .json (ntMeta data bt)) (by simp [tasksTree])
       simp only at this
       simp [load, this, ntMeta]
+    | ntstack data sd =>
+      have := he (dir ++ ["meta.json"], .json (ntsMeta data sd)) (by simp [tasksTree])
+      simp only at this
+      simp [load, this, ntsMeta]
     | node bt dv kids =>
       have hm := he (dir ++ ["meta.json"], .json (nodeMeta bt dv kids)) (by simp [tasksTree])
       simp only at hm
@@ -418,6 +439,13 @@ theorem load_ok : ∀ (fuel : Nat) (t : Tree) (dir : Path) (fs : FS), isColl t =
             rw [List.map_cons]
             change loadEntries f fs dir ((k, MetaEntry.coll "LazyStackedTensorDict") :: _) = _
             simp only [loadEntries, hrest, this]
+          | ntstack data2 sd2 =>
+            have hex := descend fs dir bt dv kids he k (.ntstack data2 sd2) hmem rfl
+            have := ih (.ntstack data2 sd2) (dir ++ [k]) fs rfl (by simp [PathSafe]) (by simp [WF])
+              (by have := depth_le_of_mem kids k _ hmem; omega) hex
+            rw [List.map_cons]
+            change loadEntries f fs dir ((k, MetaEntry.coll "NonTensorStack") :: _) = _
+            simp only [loadEntries, hrest, this]
           | tclass c2 f2 i2 =>
             have hex := descend fs dir bt dv kids he k (.tclass c2 f2 i2) hmem rfl
             have hsw := safe_of_mem kids k _ hmem hsk hwk
@@ -433,6 +461,8 @@ theorem load_ok : ∀ (fuel : Nat) (t : Tree) (dir : Path) (fs : FS), isColl t =
       have hent : (nodeMeta bt dv kids).entries = kids.map fun p => (p.1, metaEntry p.2) := rfl
       have hkind2 : ¬ (nodeMeta bt dv kids).kind = "LazyStackedTensorDict" := by simp [nodeMeta]
       simp only [hkind2, if_false]
+      have hkind4 : ¬ (nodeMeta bt dv kids).kind = "NonTensorStack" := by simp [nodeMeta]
+      simp only [hkind4, if_false]
       have hkind3 : (nodeMeta bt dv kids).kind = "TensorDict" := rfl
       simp only [hkind3, if_true]
       rw [hent, hk]
@@ -463,7 +493,7 @@ theorem load_ok : ∀ (fuel : Nat) (t : Tree) (dir : Path) (fs : FS), isColl t =
       have hdk : depthKids inner ≤ f := by simp only [depth] at hd; omega
       have hsk : PathSafeKids inner := by simp only [PathSafe] at hs; exact hs.2.2
       simp only [WF] at hw
-      obtain ⟨⟨hc1, hc2, hc3⟩, hkeys, hcoll, hwk⟩ := hw
+      obtain ⟨⟨hc1, hc2, hc3, hc4⟩, hkeys, hcoll, hwk⟩ := hw
       have hkt : ∀ x ∈ tasksKids dir inner, fs x.1 = some x.2 :=
         fun x hx => he x (by simp only [tasksTree, List.mem_cons]; right; exact hx)
       -- `inner` is the single entry `_tensordict`
@@ -481,7 +511,7 @@ theorem load_ok : ∀ (fuel : Nat) (t : Tree) (dir : Path) (fs : FS), isColl t =
         have hl := ih t (dir ++ ["_tensordict"]) fs hct hsw.1 hsw.2
           (by have := depth_le_of_mem [("_tensordict", t)] "_tensordict" t (by simp); omega) hex
         simp only [load, hm, tcMeta]
-        simp [hc1, hc2, hc3, hl]
+        simp [hc1, hc2, hc3, hc4, hl]
 
 /-! ### memmap_like -/
 
@@ -493,6 +523,7 @@ def skeleton : Tree → Tree
   | .node b d kids => .node b d (skeletonKids kids)
   | .lazy sd ms => .lazy sd (skeletonKids ms)
   | .tclass c f i => .tclass c f (skeletonKids i)
+  | .ntstack d sd => .ntstack d sd
 def skeletonKids : List (String × Tree) → List (String × Tree)
   | [] => []
   | (k, t) :: rest => (k, skeleton t) :: skeletonKids rest
@@ -505,6 +536,7 @@ theorem like_skeleton : ∀ t : Tree, skeleton (likeTree t) = skeleton t
   | .node b d kids => by simp [likeTree, skeleton, like_skeletonKids kids]
   | .lazy sd ms => by simp [likeTree, skeleton, like_skeletonKids ms]
   | .tclass c f i => by simp [likeTree, skeleton, like_skeletonKids i]
+  | .ntstack .. => by simp [likeTree, skeleton]
 theorem like_skeletonKids : ∀ kids : List (String × Tree), skeletonKids (likeKids kids) = skeletonKids kids
   | [] => by simp [likeKids, skeletonKids]
   | (k, t) :: rest => by simp [likeKids, skeletonKids, like_skeleton t, like_skeletonKids rest]
@@ -523,6 +555,7 @@ theorem like_tasks_paths (dir : Path) : ∀ t : Tree,
       | cons a as ih => obtain ⟨k, t⟩ := a; simp [likeKids, ih]
     simp [likeTree, tasksTree, like_tasksKids_paths dir ms, hl]
   | .tclass c f i => by simp [likeTree, tasksTree, like_tasksKids_paths dir i]
+  | .ntstack .. => by simp [likeTree, tasksTree]
 theorem like_tasksKids_paths (dir : Path) : ∀ kids : List (String × Tree),
     (tasksKids dir (likeKids kids)).map (·.1) = (tasksKids dir kids).map (·.1)
   | [] => by simp [likeKids, tasksKids]
@@ -543,6 +576,8 @@ theorem like_tasksKids_paths (dir : Path) : ∀ kids : List (String × Tree),
     have := like_tasks_paths (dir ++ [k]) (.tclass c f i)
     simp only [likeTree] at this
     simp only [likeKids, likeTree, tasksKids, List.map_append, like_tasksKids_paths dir rest, this]
+  | (k, .ntstack d sd) :: rest => by
+    simp only [likeKids, likeTree, tasksKids, List.map_append, like_tasksKids_paths dir rest]
 end
 
 
